@@ -249,6 +249,22 @@ def q_store_slice(itp, arrq, lo, step, vq, node):
         return arrq
     if lo is None:
         return None
+    if is_partial(vq):
+        # entry-wise known value: each known entry i goes to slot lo + step*i
+        moved = {lo + k.scale(step): v for k, v in vq[1].items()}
+        if arrq == 'any':
+            return ('partial', moved)
+        if is_partial(arrq):
+            d = dict(arrq[1])
+            d.update(moved)
+            return ('partial', d)
+        for i0, q0 in moved.items():
+            w = q_index(arrq, i0)
+            if w is None or q_same(itp, w, q0, node, 'store') is None:
+                return None
+        return arrq
+    if not (is_lin(vq) or isinstance(vq, Aff)):
+        return None
     # element i of v goes to index lo + step*i
     va, vb = (vq[1], vq[2]) if is_lin(vq) else (F(0), vq)
     alpha = va / step
